@@ -85,7 +85,9 @@ pub fn mvariant_p(v: &Variant<MetaForm>) -> Value {
     blank(pvariant(&v.clone().into_portable(&mut scale_info::Registry::new())))
 }
 pub fn mvariants_p(vs: &scale_info::TypeDefVariant<MetaForm>) -> Value {
-    json!(vs.variants.iter().map(mvariant_p).collect::<Vec<_>>())
+    // the definition converted AS A WHOLE (its own IntoPortable), not variant by variant
+    use scale_info::IntoPortable;
+    blank(pvariants(&vs.clone().into_portable(&mut scale_info::Registry::new())))
 }
 pub fn mtype_p(t: &Type<MetaForm>) -> Value {
     use scale_info::IntoPortable;
